@@ -91,66 +91,75 @@ def isPreV2 (bits : Nat) : Bool :=
   if bits < 0x80000000 then bits < 0x3E4CCCCD
   else !(bits % 0x80000000 > 0x7F800000)
 
+/-- `special` / `exe` of `write`: a special command is stored by code, with its display name. -/
+def exeField (T : CmdTables) : Exe → Option (Nat × Bytes)
+  | .str s => some (0, s)
+  | .special k => (T.specialName k).map fun n => (k, n)
+
+/-- `ensure_file` / `has_ensure_file` of `write`. -/
+def ensureField (T : CmdTables) : Option Bytes → Option (Bytes × Nat)
+  | some e => (pad e T.fieldWidth).map fun b => (b, 1)
+  | none => some (zeros T.fieldWidth, 0)
+
 /-- One command record: `ST_COMMAND.pack(...)` = `Struct('Bi260s260sii260sii')`, native
 alignment (three pad bytes after the `B`), little-endian. -/
-def writeCmd (T : CmdTables) (c : Cmd) : Option Bytes := do
-  let (special, exeStr) ← match c.exe with
-    | .str s => some (0, s)
-    | .special k => (T.specialName k).map fun n => (k, n)
-  let exeB ← pad exeStr T.fieldWidth
-  let argsB ← pad c.args T.fieldWidth
-  let (ensB, has) ← match c.ensure with
-    | some e => (pad e T.fieldWidth).map fun b => (b, 1)
-    | none => some (zeros T.fieldWidth, 0)
-  pure (UInt8.ofNat (bit c.enabled) :: 0 :: 0 :: 0 :: (le32 special ++ (exeB ++ (argsB ++
+def writeCmd (T : CmdTables) (c : Cmd) : Option Bytes :=
+  (exeField T c.exe).bind fun (special, exeStr) =>
+  (pad exeStr T.fieldWidth).bind fun exeB =>
+  (pad c.args T.fieldWidth).bind fun argsB =>
+  (ensureField T c.ensure).bind fun (ensB, has) =>
+  some (UInt8.ofNat (bit c.enabled) :: 0 :: 0 :: 0 :: (le32 special ++ (exeB ++ (argsB ++
     (le32 1 ++ (le32 has ++ (ensB ++ (le32 (bit c.useProcWin) ++ le32 (bit c.noWait)))))))))
 
 def writeCmds (T : CmdTables) : List Cmd → Option Bytes
   | [] => some []
-  | c :: cs => do
-    let a ← writeCmd T c
-    let b ← writeCmds T cs
-    pure (a ++ b)
+  | c :: cs =>
+    (writeCmd T c).bind fun a =>
+    (writeCmds T cs).bind fun b =>
+    some (a ++ b)
 
 def writeSeqs (T : CmdTables) : CmdFile → Option Bytes
   | [] => some []
-  | (name, cmds) :: rest => do
-    let nm ← pad name T.nameWidth
-    let body ← writeCmds T cmds
-    let tail ← writeSeqs T rest
-    pure (nm ++ (le32 cmds.length ++ (body ++ tail)))
+  | (name, cmds) :: rest =>
+    (pad name T.nameWidth).bind fun nm =>
+    (writeCmds T cmds).bind fun body =>
+    (writeSeqs T rest).bind fun tail =>
+    some (nm ++ (le32 cmds.length ++ (body ++ tail)))
 
 /-- `cmdseq.write(sequences, file)`; the dict is an association list with distinct keys. -/
-def write (T : CmdTables) (x : CmdFile) : Option Bytes := do
-  let body ← writeSeqs T x
-  pure (T.header ++ (le32 T.versionBits ++ (le32 x.length ++ body)))
+def write (T : CmdTables) (x : CmdFile) : Option Bytes :=
+  (writeSeqs T x).map fun body => T.header ++ (le32 T.versionBits ++ (le32 x.length ++ body))
 
-/-- `Command.parse(*cmd_struct.unpack(file.read(cmd_struct.size)))`. -/
-def parseCmd (T : CmdTables) (pre : Bool) (bs : Bytes) : Option (Cmd × Bytes) := do
-  let (en, bs) ← takeN 4 bs
-  let (sp, bs) ← takeN 4 bs
-  let (exeB, bs) ← takeN T.fieldWidth bs
-  let (argsB, bs) ← takeN T.fieldWidth bs
-  let (_long, bs) ← takeN 4 bs
-  let (chk, bs) ← takeN 4 bs
-  let (ensB, bs) ← takeN T.fieldWidth bs
-  let (upw, bs) ← takeN 4 bs
-  let (nw, bs) ← if pre then some (le32 0, bs) else takeN 4 bs
-  let special := unle32 sp
-  let exe ← if special != 0 then
-      (if (T.specialName special).isSome then some (Exe.special special) else none)
-    else (strip exeB).map Exe.str
-  let ensure ← if unle32 chk != 0 then (strip ensB).map some else some none
-  let args ← strip argsB
-  pure ({ exe, args, enabled := en.headD 0 != 0, ensure,
-          useProcWin := unle32 upw != 0, noWait := unle32 nw != 0 }, bs)
+/-- `Command.parse(...)` on the unpacked fields (all still raw bytes). -/
+def decodeCmd (T : CmdTables) (en sp exeB argsB chk ensB upw nw : Bytes) : Option Cmd :=
+  (if unle32 sp != 0 then
+      (if (T.specialName (unle32 sp)).isSome then some (Exe.special (unle32 sp)) else none)
+    else (strip exeB).map Exe.str).bind fun exe =>
+  (if unle32 chk != 0 then (strip ensB).map some else some none).bind fun ensure =>
+  (strip argsB).bind fun args =>
+  some { exe, args, enabled := en.headD 0 != 0, ensure,
+         useProcWin := unle32 upw != 0, noWait := unle32 nw != 0 }
+
+/-- `Command.parse(*cmd_struct.unpack(file.read(cmd_struct.size)))`: the `B` with its three pad
+bytes, `i`, two `260s`, `ii`, `260s`, `i` and (not before version 0.2) one more `i`. -/
+def parseCmd (T : CmdTables) (pre : Bool) (bs : Bytes) : Option (Cmd × Bytes) :=
+  (takeN 4 bs).bind fun (en, bs) =>
+  (takeN 4 bs).bind fun (sp, bs) =>
+  (takeN T.fieldWidth bs).bind fun (exeB, bs) =>
+  (takeN T.fieldWidth bs).bind fun (argsB, bs) =>
+  (takeN 4 bs).bind fun (_long, bs) =>
+  (takeN 4 bs).bind fun (chk, bs) =>
+  (takeN T.fieldWidth bs).bind fun (ensB, bs) =>
+  (takeN 4 bs).bind fun (upw, bs) =>
+  (if pre then some (le32 0, bs) else takeN 4 bs).bind fun (nw, bs) =>
+  (decodeCmd T en sp exeB argsB chk ensB upw nw).map fun c => (c, bs)
 
 def parseCmds (T : CmdTables) (pre : Bool) : Nat → Bytes → Option (List Cmd × Bytes)
   | 0, bs => some ([], bs)
-  | n + 1, bs => do
-    let (c, bs) ← parseCmd T pre bs
-    let (cs, bs) ← parseCmds T pre n bs
-    pure (c :: cs, bs)
+  | n + 1, bs =>
+    (parseCmd T pre bs).bind fun (c, bs) =>
+    (parseCmds T pre n bs).bind fun (cs, bs) =>
+    some (c :: cs, bs)
 
 /-- `sequences[seq_name] = …` on an insertion-ordered dict. -/
 def dictSet (d : CmdFile) (k : Bytes) (v : List Cmd) : CmdFile :=
@@ -159,19 +168,19 @@ def dictSet (d : CmdFile) (k : Bytes) (v : List Cmd) : CmdFile :=
 
 def parseSeqs (T : CmdTables) (pre : Bool) : Nat → Bytes → CmdFile → Option CmdFile
   | 0, _, acc => some acc
-  | n + 1, bs, acc => do
-    let (nameB, bs) ← takeN T.nameWidth bs
-    let name ← strip nameB
-    let (cnt, bs) ← takeN 4 bs
-    let (cmds, bs) ← parseCmds T pre (unle32 cnt) bs
+  | n + 1, bs, acc =>
+    (takeN T.nameWidth bs).bind fun (nameB, bs) =>
+    (strip nameB).bind fun name =>
+    (takeN 4 bs).bind fun (cnt, bs) =>
+    (parseCmds T pre (unle32 cnt) bs).bind fun (cmds, bs) =>
     parseSeqs T pre n bs (dictSet acc name cmds)
 
 /-- `cmdseq.parse(file)`. Trailing bytes are ignored, as in the code. -/
-def parse (T : CmdTables) (bs : Bytes) : Option CmdFile := do
-  let (hdr, bs) ← takeN T.header.length bs
-  if hdr != T.header then none
-  let (v, bs) ← takeN 4 bs
-  let (n, bs) ← takeN 4 bs
+def parse (T : CmdTables) (bs : Bytes) : Option CmdFile :=
+  (takeN T.header.length bs).bind fun (hdr, bs) =>
+  if hdr != T.header then none else
+  (takeN 4 bs).bind fun (v, bs) =>
+  (takeN 4 bs).bind fun (n, bs) =>
   parseSeqs T (isPreV2 (unle32 v)) (unle32 n) bs []
 
 /-! ## scenes.image container -/
